@@ -229,15 +229,15 @@ def resKey (t : Tbl) : Key → Key
 
 /-- a list of items read as a Python `dict` (a later duplicate of a key overwrites; order of
 first insertion) -/
-def dictOf (l : List (Key × Key)) : List (Key × Key) :=
+def renameDictOf (l : List (Key × Key)) : List (Key × Key) :=
   (dedup (l.reverse.map (·.1))).reverse.map fun k => (k, (l.reverse.lookup k).getD k)
 
 theorem resolveRename_eq (t : Tbl) (rn : List (Key × Key)) :
-    resolveRename t rn = dictOf (rn.map fun p => (resKey t p.1, resKey t p.2)) := by
+    resolveRename t rn = renameDictOf (rn.map fun p => (resKey t p.1, resKey t p.2)) := by
   have hg : (fun p : Key × Key => (resKey t p.1, resKey t p.2)) = fun x => match x with
       | (k, v) => (resKey t k, resKey t v) := by
     funext p; rfl
-  unfold resolveRename dictOf
+  unfold resolveRename renameDictOf
   rfl
 
 theorem dedup_of_nodup {α} [BEq α] [LawfulBEq α] : ∀ l : List α, l.Nodup → dedup l = l := by
@@ -270,8 +270,8 @@ theorem lookup_of_mem_nodup {α β} [BEq α] [LawfulBEq α] :
       exact ih hn.2 k v h
 
 /-- a dictionary given by items with pairwise distinct keys is the list of these items -/
-theorem dictOf_nodup (l : List (Key × Key)) (h : (l.map (·.1)).Nodup) : dictOf l = l := by
-  unfold dictOf
+theorem renameDictOf_nodup (l : List (Key × Key)) (h : (l.map (·.1)).Nodup) : renameDictOf l = l := by
+  unfold renameDictOf
   have hr : (l.reverse.map (·.1)).Nodup := by
     rw [List.map_reverse]
     exact List.pairwise_reverse.mpr (h.imp fun hab => hab.symm)
@@ -304,7 +304,7 @@ theorem intPairs_resolveRename_levels (t : Tbl) (l : List (Int × Int))
         fun p : Int × Int => (Key.lvl p.1, Key.lvl p.2)) = fun p => (Key.lvl p.1, Key.lvl p.2) := by
       funext p; rfl
     rw [this]
-    apply dictOf_nodup
+    apply renameDictOf_nodup
     rw [List.map_map]
     have : ((·.1) ∘ fun p : Int × Int => (Key.lvl p.1, Key.lvl p.2)) = Key.lvl ∘ (·.1) := by
       funext p; rfl
@@ -335,7 +335,7 @@ theorem intPairs_resolveRename_names (t : Tbl) (hV : VarsBij t) (l : List (Strin
       simp only [Function.comp]
       rw [hres _ (hd p hp).1, hres _ (hd p hp).2]
     rw [this]
-    apply dictOf_nodup
+    apply renameDictOf_nodup
     rw [List.map_map]
     rw [List.Nodup, List.pairwise_map]
     rw [List.Nodup, List.pairwise_map] at h
